@@ -22,8 +22,18 @@ func VerifC36_RHHPutGet() {
 	K := vrt.Bound("K", 3)
 	m := &HashMap{capacity: 4, loadFactor: 90, tracker: &rhhTracker{}}
 	m.alloc()
+	held := make([][]byte, K) // the caller keeps using its key slices after Put
 	for i := 0; i < K; i++ {
-		m.Put([]byte(verifKeys[i]), i+1)
+		held[i] = []byte(verifKeys[i])
+		m.Put(held[i], i+1)
+	}
+	for i := 0; i < K; i++ {
+		vrt.Assert(string(held[i]) == verifKeys[i], "put: the caller's key slice is not modified")
+		if iv, ok := m.Get(held[i]).(int); ok {
+			vrt.Assert(iv == i+1, "get with the slice passed to Put: that key's value")
+		} else {
+			vrt.Assert(false, "get with the slice passed to Put: found")
+		}
 	}
 	// overwrite the first key
 	m.Put([]byte(verifKeys[0]), 1000)
